@@ -87,34 +87,35 @@ Proof.
 Qed.
 
 (* ---- At ---- *)
-Lemma at_loop_spec : forall (f : addr -> ptr) (back : bool) (h : heap) r,
+Lemma at_loop_spec : forall (f : addr -> ptr) (back : bool) (step : Z) (h : heap) r,
   (forall x, x < size h -> (if back then prev_of (Some x) else next_of (Some x)) h = (h, Ok (f x))) ->
   forall post cur fuel n,
     fpath f (cur :: post ++ [r]) -> ~ In r post -> (forall x, In x (cur :: post) -> x < size h) ->
-    (0 <= n)%Z -> length post < fuel ->
-    at_loop fuel back (Some r) (Some cur) n h = (h, Ok (nth_error (cur :: post) (Z.to_nat n))).
+    ((step = 1 /\ 0 <= n) \/ (step = -1 /\ n <= 0))%Z -> length post < fuel ->
+    at_loop_gen (fun z => z) fuel back step (Some r) (Some cur) n h = (h, Ok (nth_error (cur :: post) (Z.to_nat (Z.abs n)))).
 Proof.
-  intros f back h r Hstep post. induction post as [|p post IH]; intros cur fuel n Hp Hni Hlt Hn Hf.
-  - destruct fuel as [|fuel]; [cbn in Hf; lia|]. cbn [at_loop]. unfold at_more.
-    destruct (Z.gtb_spec n 0) as [Hpos|Hz].
+  intros f back step h r Hstep post.
+  induction post as [|p post IH]; intros cur fuel n Hp Hni Hlt Hn Hf.
+  - destruct fuel as [|fuel]; [cbn in Hf; lia|]. cbn [at_loop_gen]. unfold at_more.
+    destruct (Z.eqb_spec n 0) as [Hz|Hnz]; cbn [negb].
+    + subst n. reflexivity.
     + erewrite bind_ok by (apply Hstep; apply Hlt; left; reflexivity). cbn in Hp. destruct Hp as [Hp _]. rewrite Hp.
       unfold at_wrapped. rewrite enc_eqb. cbn [ptr_eqb]. rewrite Nat.eqb_refl.
-      destruct (Z.to_nat n) eqn:E; [lia|]. cbn. destruct n0; reflexivity.
-    + assert (n = 0%Z) by lia. subst n. reflexivity.
-  - destruct fuel as [|fuel]; [cbn in Hf; lia|]. cbn [at_loop]. unfold at_more.
-    destruct (Z.gtb_spec n 0) as [Hpos|Hz].
+      destruct (Z.to_nat (Z.abs n)) eqn:E; [lia|]. cbn. destruct n0; reflexivity.
+  - destruct fuel as [|fuel]; [cbn in Hf; lia|]. cbn [at_loop_gen]. unfold at_more.
+    destruct (Z.eqb_spec n 0) as [Hz|Hnz]; cbn [negb].
+    + subst n. reflexivity.
     + erewrite bind_ok by (apply Hstep; apply Hlt; left; reflexivity).
       cbn [app] in Hp. destruct Hp as [Hp Hp']. rewrite Hp.
       unfold at_wrapped. rewrite enc_eqb. cbn [ptr_eqb].
       destruct (Nat.eqb_spec p r) as [->|Hne]; [exfalso; apply Hni; left; reflexivity|].
-      unfold at_dec. rewrite (IH p fuel (n - 1)%Z).
-      * replace (Z.to_nat n) with (S (Z.to_nat (n - 1))) by lia. reflexivity.
+      unfold at_dec. rewrite (IH p fuel (n - step)%Z).
+      * replace (Z.to_nat (Z.abs n)) with (S (Z.to_nat (Z.abs (n - step)))) by lia. reflexivity.
       * exact Hp'.
       * intro Hi. apply Hni. right. exact Hi.
       * intros x Hx. apply Hlt. right. exact Hx.
       * lia.
       * cbn in Hf. lia.
-    + assert (n = 0%Z) by lia. subst n. reflexivity.
 Qed.
 
 Lemma offset_fwd : forall (c : list addr) n, (0 <= n)%Z -> offset c n = nth_error c (Z.to_nat n).
@@ -155,24 +156,24 @@ Proof.
   exists t, rest. split; [exact E|].
   destruct (cycle_facts h a t rest P) as [Hnd [Hlt Hlen]].
   inversion Hnd as [|? ? Hni _]; subst.
-  unfold at_, at_nil. rewrite enc_nil.
+  unfold at_, at_gen, at_nil. rewrite enc_nil.
   erewrite bind_ok by reflexivity.
   unfold at_neg. destruct (Z.ltb_spec n 0) as [Hneg|Hpos].
-  - unfold at_negate. rewrite offset_bwd by lia.
-    apply (at_loop_spec (pv h) true h a).
+  - rewrite offset_bwd by lia. rewrite <- (Z.abs_neq n) by lia.
+    apply (at_loop_spec (pv h) true at_step_back h a).
     + intros x Hx. apply get_prev_ok. exact Hx.
     + apply cyc_bwd. exact Hc.
     + intro Hi. apply Hni. apply in_rev. exact Hi.
     + intros x [<-|Hx]; [exact Ha|]. apply Hlt. right. apply in_rev. exact Hx.
-    + lia.
+    + right. unfold at_step_back. lia.
     + rewrite rev_length. unfold addr in *. lia.
-  - rewrite offset_fwd by lia.
-    apply (at_loop_spec (nx h) false h a).
+  - rewrite offset_fwd by lia. rewrite <- (Z.abs_eq n) at 2 by lia.
+    apply (at_loop_spec (nx h) false at_step_fwd h a).
     + intros x Hx. apply get_next_ok. exact Hx.
     + apply cyc_fwd. exact Hc.
     + exact Hni.
     + exact Hlt.
-    + lia.
+    + left. unfold at_step_fwd. lia.
     + unfold addr in *. lia.
 Qed.
 
